@@ -704,7 +704,12 @@ def paths_under (repo, module, g, env, start, stops, cls=None, limit=200, track=
             elif meth in ('discard', 'remove'): c2.discard(v_)
             else: raise _Unknown()
             ne.exact[nm_] = c2
+          # aliasing: every other binding that held the very same object sees the change too
+          for k2_, v2_ in list(ne.exact.items()):
+            if k2_ != nm_ and v2_ is cur_: ne.exact[k2_] = ne.exact[nm_]
         except Exception:
+          for k2_, v2_ in list(ne.exact.items()):
+            if k2_ != nm_ and v2_ is cur_: ne.exact.pop(k2_, None)
           if '.' in nm_: ne.exact.pop(nm_, None)
           else: _kill(ne, nm_)
     for m, l in succ:
@@ -732,6 +737,19 @@ def _bind_target (tgt, val, env):
 
 def _assign_env (repo, module, st, env, cls):
   ne = Env(dict(env.exact), list(env.matchers), getattr(env, 'call_hook', None))
+  if isinstance(st, ast.Assign) and len(st.targets) > 1 and all(isinstance(t, ast.Name) or (isinstance(t, ast.Attribute) and isinstance(t.value, ast.Name)) for t in st.targets):
+    # a = b.c = value : one evaluation, every target bound to the same object
+    try: val = eval_env2(repo, module, st.value, env, cls); known = val is not OPAQUE
+    except Exception: known = False
+    for t in st.targets:
+      if isinstance(t, ast.Name): _kill(ne, t.id)
+      else:
+        key = norm(t)
+        for k in list(ne.exact):
+          if key in k: del ne.exact[k]
+    if known:
+      for t in st.targets: ne.exact[t.id if isinstance(t, ast.Name) else norm(t)] = val
+    return ne
   if isinstance(st, ast.Assign) and len(st.targets) == 1 and isinstance(st.targets[0], ast.Name):
     nm = st.targets[0].id
     try: val = eval_env2(repo, module, st.value, env, cls); known = True
